@@ -119,6 +119,9 @@ class Run:
 
     # ------------------------------------------------------------------------------
     def finish(self, level, explanation, checker_cmd=None):
+        # the demonstration scripts of the defect hunt that belong to this property (regression probes for the repaired ones, detectors for the recorded ones)
+        from vf import huntprobes
+        huntprobes.run(self, self.pid)
         cov = self.cov
         cov["explanation"] = explanation
         if checker_cmd:
